@@ -295,6 +295,11 @@ func (r *Report) print(verbose bool) {
 		for _, s := range r.Slow {
 			fmt.Println("  SLOW", s)
 		}
+		for _, a := range r.Assumptions {
+			if strings.Contains(a, "opaque call") {
+				fmt.Println("  OPAQUE", a)
+			}
+		}
 	}
 	for _, k := range r.Known {
 		fmt.Println(k)
